@@ -97,7 +97,13 @@ func runSplit(op *connfake.Op, v int16, body []byte, sh connfake.Shape, k int) s
 		c.SetDeadline(time.Now().Add(700 * time.Millisecond))
 		var d string
 		var err error
-		if verifOp(op.Name) {
+		if op.Name == "apiVersions" {
+			var vs []kafka.ApiVersion
+			vs, err = c.ApiVersions()
+			for _, a := range vs {
+				d += fmt.Sprintf("%d:%d:%d/", a.ApiKey, a.MinVersion, a.MaxVersion)
+			}
+		} else if verifOp(op.Name) {
 			d, err = kafka.VerifConnOp(c, op.Name)
 		} else {
 			d, err = op.Call(c, &sh)
@@ -193,6 +199,35 @@ func respMode() {
 				if op.Name == "fetch" {
 					sum := md5.Sum([]byte(fmt.Sprint(sh.Want, "prefix", true)))
 					want = "ok 0 " + hex.EncodeToString(sum[:6])
+				}
+				if op.Name == "apiVersions" && len(body) >= 6 {
+					exp := ""
+					n := int(binary.BigEndian.Uint32(body[2:]))
+					for i := 0; i < n && 6+6*i+6 <= len(body); i++ {
+						e := body[6+6*i:]
+						exp += fmt.Sprintf("%d:%d:%d/", int16(binary.BigEndian.Uint16(e)), int16(binary.BigEndian.Uint16(e[2:])), int16(binary.BigEndian.Uint16(e[4:])))
+					}
+					sum := md5.Sum([]byte(exp))
+					want = "ok 0 " + hex.EncodeToString(sum[:6])
+				}
+				// list offsets / produce: the values Conn returns are fields of the body at fixed positions (topic "t":
+				// array(4) string(3) array(4) partition(4) error(2) then int64s) — expected independently of the reader
+				if tl := 2 + len(sh.Topic); len(body) >= 4+tl+4+4+2+16 {
+					at := 4 + tl + 4
+					part := int32(binary.BigEndian.Uint32(body[at:]))
+					first := int64(binary.BigEndian.Uint64(body[at+6:]))
+					second := int64(binary.BigEndian.Uint64(body[at+14:]))
+					exp := ""
+					switch op.Name {
+					case "listOffsets":
+						exp = fmt.Sprint(second) // partition, error, timestamp, OFFSET
+					case "produce":
+						exp = fmt.Sprintf("%d/%d", part, first) // partition, error, OFFSET, timestamp
+					}
+					if exp != "" {
+						sum := md5.Sum([]byte(exp))
+						want = "ok 0 " + hex.EncodeToString(sum[:6])
+					}
 				}
 				wd := want[len("ok 0 "):]
 				if len(want) < 6 || want[:5] != "ok 0 " {
